@@ -1,5 +1,10 @@
 package term
 
+import (
+	"fmt"
+	"os"
+)
+
 // Linear reasoning over exact (non-wrapping) sums, used by the comparison
 // constructors to decide conditions such as (x+10) < (x+y+18) without a
 // solver call, and to normalise comparisons between sums that share terms,
@@ -87,13 +92,13 @@ func (l *lin) walk(t *T, c int64, depth int, top bool) {
 		l.visits++
 		return
 	case OAdd:
-		if t.rng {
+		if t.exact {
 			l.walk(t.A[0], c, depth+1, false)
 			l.walk(t.A[1], c, depth+1, false)
 			return
 		}
 	case OSub:
-		if t.rng {
+		if t.exact {
 			l.walk(t.A[0], c, depth+1, false)
 			l.walk(t.A[1], -c, depth+1, false)
 			return
@@ -101,14 +106,18 @@ func (l *lin) walk(t *T, c int64, depth int, top bool) {
 		if top {
 			_, h0 := t.A[0].Range()
 			_, h1 := t.A[1].Range()
-			if h0 < linLimit && h1 < linLimit {
+			lim := linLimit
+			if t.W < 64 {
+				lim = uint64(1) << (t.W - 1)
+			}
+			if h0 < lim && h1 < lim {
 				l.walk(t.A[0], c, depth+1, false)
 				l.walk(t.A[1], -c, depth+1, false)
 				return
 			}
 		}
 	case OMul:
-		if t.rng && t.A[1].IsConst() && t.A[1].C < 1<<32 {
+		if t.exact && t.A[1].IsConst() && t.A[1].C < 1<<32 {
 			p, ok := mulOK(c, int64(t.A[1].C))
 			if !ok {
 				l.ok = false
@@ -118,7 +127,7 @@ func (l *lin) walk(t *T, c int64, depth int, top bool) {
 			return
 		}
 	case OShl:
-		if t.rng && t.A[1].IsConst() && t.A[1].C < 16 {
+		if t.exact && t.A[1].IsConst() && t.A[1].C < 16 {
 			l.walk(t.A[0], c<<t.A[1].C, depth+1, false)
 			return
 		}
@@ -284,8 +293,10 @@ func linUlt(a, b *T) (res bool, decided bool) {
 }
 
 // linCmp decides or normalises a < b.  It returns nil when it has nothing to offer.
+var noLin = os.Getenv("VERIF_NOLIN") != ""
+
 func linCmp(a, b *T, signed bool) *T {
-	if a.W != b.W || a.W == 0 {
+	if a.W != b.W || a.W == 0 || noLin {
 		return nil
 	}
 	l, ok := diff(a, b, signed)
@@ -296,11 +307,12 @@ func linCmp(a, b *T, signed bool) *T {
 	if !ok {
 		return nil
 	}
-	if lo >= 1 {
-		return True
-	}
-	if hi <= 0 {
-		return False
+	if !signed && (lo >= 1 || hi <= 0) {
+		res := Bool(lo >= 1)
+		if linDebug {
+			debugCheckRewrite("decide-unsigned", a, b, res, mk(OUlt, 0, a, b))
+		}
+		return res
 	}
 	if signed {
 		// both sides must be small enough for the signed reading to be the integer value
@@ -311,16 +323,39 @@ func linCmp(a, b *T, signed bool) *T {
 				return nil
 			}
 			slo, shi, ok := s.bounds()
-			if !ok || slo <= -(1<<62) || shi >= 1<<62 {
+			lim := int64(1) << 62
+			if a.W < 64 {
+				lim = int64(1) << (a.W - 1)
+			}
+			if !ok || slo <= -lim || shi >= lim {
 				return nil
 			}
 		}
+	}
+	if lo >= 1 || hi <= 0 {
+		res := Bool(lo >= 1)
+		if linDebug {
+			op := OUlt
+			if signed {
+				op = OSlt
+			}
+			debugCheckRewrite("decide", a, b, res, mk(op, 0, a, b))
+		}
+		return res
 	}
 	lhs, rhs, improved, ok := l.split(a.W)
 	if !ok || (!improved && !signed) {
 		return nil
 	}
-	return ultRaw(lhs, rhs)
+	res := ultRaw(lhs, rhs)
+	if linDebug {
+		op := OUlt
+		if signed {
+			op = OSlt
+		}
+		debugCheckRewrite("cmp", a, b, res, mk(op, 0, a, b))
+	}
+	return res
 }
 
 // linEq tries to decide a == b.
@@ -339,4 +374,129 @@ func linEq(a, b *T) (res bool, decided bool) {
 		return false, true
 	}
 	return false, false
+}
+
+// linSub simplifies a - b when both are exact sums, something cancels, and the difference is a
+// non-negative exact sum again (so no wrap-around is hidden).  Returns nil otherwise.
+var noLinSub = os.Getenv("VERIF_NOLINSUB") != ""
+
+func linSub(a, b *T) *T {
+	if a.W != b.W || a.W == 0 || noLin || noLinSub {
+		return nil
+	}
+	l, ok := diff(b, a, false) // a - b
+	if !ok {
+		return nil
+	}
+	n := 0
+	for _, x := range l.ts {
+		if x.c < 0 {
+			return nil
+		}
+		if x.c > 0 {
+			n++
+		}
+	}
+	if l.k < 0 {
+		return nil
+	}
+	if l.k != 0 {
+		n++
+	}
+	if n >= l.visits {
+		return nil // nothing cancelled
+	}
+	r := Const(a.W, 0)
+	for _, x := range l.ts {
+		if x.c == 0 {
+			continue
+		}
+		t := x.t
+		if t.W > a.W || t.W == 0 {
+			return nil
+		}
+		if t.W < a.W {
+			t = ZExt(t, a.W)
+		}
+		if x.c != 1 {
+			t = Mul(t, Const(a.W, uint64(x.c)))
+		}
+		r = Add(r, t)
+	}
+	if l.k > 0 {
+		r = Add(r, Const(a.W, uint64(l.k)))
+	}
+	if _, hi := r.Range(); hi >= linLimit {
+		return nil
+	}
+	return r
+}
+
+var linDebug = os.Getenv("VERIF_LINDEBUG") != ""
+
+// debugCheckRewrite samples assignments and reports a rewrite that changes the value of a comparison although
+// every ranged node keeps its promise (development aid, VERIF_LINDEBUG=1).
+func debugCheckRewrite(kind string, a, b, res *T, raw *T) {
+	syms := map[string]struct{}{}
+	CollectSyms(raw, map[*T]struct{}{}, syms)
+	var names []string
+	widths := map[string]uint8{}
+	var findW func(t *T)
+	seen := map[*T]bool{}
+	findW = func(t *T) {
+		if seen[t] {
+			return
+		}
+		seen[t] = true
+		if t.Op == OSym {
+			widths[t.Name] = t.W
+		}
+		for _, x := range t.A {
+			findW(x)
+		}
+	}
+	findW(raw)
+	for s := range syms {
+		if s[0] == 's' {
+			names = append(names, s[2:])
+		}
+	}
+	var nodes []*T
+	for t := range seen {
+		if t.rng {
+			nodes = append(nodes, t)
+		}
+	}
+	x := uint64(88172645463325252)
+	next := func() uint64 { x ^= x << 13; x ^= x >> 7; x ^= x << 17; return x }
+	specials := []uint64{0, 1, 2, 252, 253, 254, 255, 32767, 32768, 32769, 65535, 65536, 70000, 1 << 31, 1 << 32}
+	for i := 0; i < 3000; i++ {
+		m := NewModel()
+		for _, n := range names {
+			v := next()
+			if next()%2 == 0 {
+				v = specials[next()%uint64(len(specials))] + next()%3 - 1
+			}
+			m.Syms[n] = v & Mask(widths[n])
+		}
+		ev := NewEvaluator(m)
+		ok := true
+		for _, t := range nodes {
+			v := ev.Eval(t)
+			if v < t.lo || v > t.hi {
+				ok = false
+				break
+			}
+		}
+		if !ok {
+			continue
+		}
+		if ev.Eval(raw) != ev.Eval(res) {
+			fmt.Printf("LINDEBUG unsound %s rewrite:\n  a=%s\n  b=%s\n  raw=%s\n  res=%s\n  model=%v\n", kind, a.str(12), b.str(12), raw.str(12), res.str(12), m.Syms)
+			for _, t := range nodes {
+				fmt.Printf("   ranged node %s in [%d,%d] = %d\n", t.str(4), t.lo, t.hi, ev.Eval(t))
+			}
+			return
+		}
+	}
 }
